@@ -1422,6 +1422,16 @@ def step2(line):
         except Exception:  # noqa
             return 'SKIP'          # not re-encodable: reported by the to_bitarray part of the check
         fam = {'decode(sentences as emitted)': _try(lambda: canon_msg(pyais.decode(*sents)))}
+
+        def again_after_modification():
+            first = pyais.decode(*sents)
+            for name in list(first.asdict()):
+                try:
+                    setattr(first, name, None)
+                except Exception:  # noqa
+                    pass
+            return canon_msg(pyais.decode(*sents))
+        fam['decode again after the caller modified the first result'] = _try(again_after_modification)
         if len(sents) > 1:
             fam['decode(sentences reversed)'] = _try(lambda: canon_msg(pyais.decode(*sents[::-1])))
             # the re-encoded log read back through ONE queue for the whole run, every message with its sentences in
